@@ -47,8 +47,8 @@ pub fn run_case(t: &mut Toks) -> Vec<i128> {
     }
     let ns = t.usize();
     let steps: Vec<(usize, u64)> = (0..ns).map(|_| (t.usize(), t.u64())).collect();
-    let nodes: Arc<Mutex<Vec<(usize, usize, u32, u64)>>> = Arc::new(Mutex::new(Vec::new()));
-    let exits: Arc<Mutex<Vec<(usize, u32, u64, u64)>>> = Arc::new(Mutex::new(Vec::new()));
+    let nodes: Arc<Mutex<Vec<(usize, usize, u32, u64, u64)>>> = Arc::new(Mutex::new(Vec::new()));
+    let exits: Arc<Mutex<Vec<(usize, u32, u64, u64, u64)>>> = Arc::new(Mutex::new(Vec::new()));
     let mut bodies: Vec<Box<dyn FnOnce() + Send>> = Vec::new();
     for (tid, prog) in progs.into_iter().enumerate() {
         let name = name.clone();
@@ -64,13 +64,21 @@ pub fn run_case(t: &mut Toks) -> Vec<i128> {
                         .with_traffic_type(if inbound == 1 { TrafficType::Inbound } else { TrafficType::Outbound });
                     if let Ok(e) = b.build() {
                         let p = e.context().read().unwrap().stat_node().map(|n| Arc::as_ptr(&n) as *const u8 as usize).unwrap_or(0);
-                        nodes.lock().unwrap().push((tid, p, batch, inbound));
+                        let tend = sentinel_core::utils::curr_time_millis();
+                        nodes.lock().unwrap().push((tid, p, batch, inbound, tend));
                         open.push((e, batch, inbound, t0 as u64));
                     }
                 } else if let Some((e, batch, inbound, t0)) = open.pop() {
                     let t1 = (sentinel_core::utils::curr_time_millis()) as u64;
-                    exits.lock().unwrap().push((tid, batch, inbound, t1 - t0));
+                    // logged when the exit starts (the order of the list), completed with the time it returned
+                    let ix = {
+                        let mut g = exits.lock().unwrap();
+                        g.push((tid, batch, inbound, t1 - t0, 0));
+                        g.len() - 1
+                    };
                     e.exit();
+                    let tend = sentinel_core::utils::curr_time_millis();
+                    exits.lock().unwrap()[ix].4 = tend;
                 }
             }
         }));
@@ -112,13 +120,13 @@ pub fn run_case(t: &mut Toks) -> Vec<i128> {
     };
     let ns = nodes.lock().unwrap().clone();
     out.push(ns.len() as i128);
-    for (tid, p, batch, inbound) in ns {
-        out.extend([tid as i128, tok(p), batch as i128, inbound as i128]);
+    for (tid, p, batch, inbound, _) in &ns {
+        out.extend([*tid as i128, tok(*p), *batch as i128, *inbound as i128]);
     }
     let xs = exits.lock().unwrap().clone();
     out.push(xs.len() as i128);
-    for (tid, batch, inbound, rt) in xs {
-        out.extend([tid as i128, batch as i128, inbound as i128, rt as i128]);
+    for (tid, batch, inbound, rt, _) in &xs {
+        out.extend([*tid as i128, *batch as i128, *inbound as i128, *rt as i128]);
     }
     match stat::get_resource_node(&name) {
         Some(n) => {
@@ -131,5 +139,10 @@ pub fn run_case(t: &mut Toks) -> Vec<i128> {
     let inb = stat::inbound_node();
     out.extend([inb.current_concurrency() as i128, inb.sum(MetricEvent::Pass) as i128,
                 inb.sum(MetricEvent::Complete) as i128, inb.sum(MetricEvent::Rt) as i128]);
+    // when each operation had returned (clock relative to the base), builds then exits, in the order of the lists above
+    out.push(ns.len() as i128);
+    out.extend(ns.iter().map(|x| x.4 as i128 - base as i128));
+    out.push(xs.len() as i128);
+    out.extend(xs.iter().map(|x| x.4 as i128 - base as i128));
     out
 }
